@@ -467,3 +467,26 @@ class EllipseMP(NumericRoiMP):
 
 for c in (RectMP(), CircleMP(), AnnulusMP(), EllipseMP()):
     CONTRACTS.append(c)
+
+
+class SubsetPair(Pair):
+    """a plain (ungrouped) subset: style, selection and label"""
+    cls, saver, loader = 'Subset', '_save_subset', '_load_subset'
+
+    def make_object(self, cfg):
+        return PObj(self.cls, fields={'style': val('style'), 'subset_state': val('state'), 'label': 'hot'})
+
+    def globals_(self, cfg, st):
+        def make(I, data, *a, **k):
+            o = PObj(self.cls, fields={'data': data, 'args': a, 'kwargs': k})
+            st.made.append(o)
+            return o
+        return {self.cls: Builtin(self.cls, make)}
+
+    def expect(self, cfg, st, r):
+        f, g = st.obj.fields, r.fields
+        return [('built-without-a-dataset(the-dataset-attaches-it-later)', g['data'] is None and not g['args'] and not g['kwargs']),
+                ('style-selection-and-label-as-saved', g.get('style') is f['style'] and g.get('subset_state') is f['subset_state'] and g.get('label') == f['label'])]
+
+
+CONTRACTS.append(SubsetPair())
